@@ -37,6 +37,9 @@ pub struct St {
     pub holding: Vec<bool>,
     /// guest memory under observation: (host base, length)
     pub mem: (usize, usize),
+    /// number of 64-bit words of the bitmap under observation (0: not a bitmap run); an atomic step on any other word
+    /// (a field the code under test may have added next to the bitmap) is a scheduling point without bitmap effect
+    pub nwords: usize,
 }
 
 pub struct Shared {
@@ -74,7 +77,12 @@ impl AtomicHook for Shared {
             return;
         }
         let word = (addr as i64 - st.base as i64) / 8;
-        let mut ev = json!({"t": tid + 1, "kind": kind, "w": word, "arg": bits(arg), "old": bits(old)});
+        let foreign = st.nwords > 0 && (addr < st.base || addr >= st.base + 8 * st.nwords);
+        let mut ev = if foreign {
+            json!({"t": tid + 1, "kind": "noop", "w": 0, "arg": [], "old": [], "aux": kind})
+        } else {
+            json!({"t": tid + 1, "kind": kind, "w": word, "arg": bits(arg), "old": bits(old)})
+        };
         if let Some(b) = st.pending_begin[tid].take() {
             ev["begin"] = b;
         }
@@ -219,6 +227,7 @@ impl SchedExec {
         {
             let mut st = sh.m.lock().unwrap();
             st.base = st.probe_addr;
+            st.nwords = (size + 63) / 64;
         }
         let mut handles = Vec::new();
         for (tid, prog) in progs.iter().enumerate() {
